@@ -58,9 +58,9 @@ add("C09", "fault_enumeration", SIM + "targeted truncation/tamper faults placed 
 add("C13", "exploration", "seeded goroutine workloads of read-only operations on shared packets under the Go race detector (interleaving chosen by the Go scheduler, not the simulator - stated) plus deterministic hidden-write detection by deep snapshots",
     "Race detector verdicts do not depend on the interleaving because the code under test has no synchronisation; hidden-write detection is fully deterministic.",
     "Race detector is sound within its history window.", "4 C13")
-add("C15", "exploration", SIM + "varint codec through verif-tagged wrappers: streaming decoder under link schedules and cuts, in-memory decoder on the same bytes, agreement; all sequences of length <= 2 enumerated, longer ones sampled",
-    "SAMPLED: the statement's exhaustive 2^28 quantifier is NOT met by this technique (that would be bounded enumeration); level is exploration with measured coverage per width class.",
-    "Hooks compiled only with -tags verif.", "4 C15")
+add("C15", "exploration", SIM + "varint codec through verif-tagged wrappers: streaming decoder under link schedules and cuts, in-memory decoder on the same bytes, agreement; quick: all sequences of length <= 2 enumerated, values and longer sequences sampled; thorough additionally walks through all 2^28 values and all 2^24 three-byte sequences",
+    "Quick tier: SAMPLED values (16 width boundaries + 40 seeded per run) and all 1- and 2-byte sequences. Thorough tier: an exhaustive sub-sweep covers ALL 2^28 values (encode = minimal form, in-memory and streaming decode return value and width) and ALL three-byte sequences (decoder agreement); four-byte and five-byte sequences remain sampled, so the statement's quantifier is met for values but not for all <= 4-byte sequences.",
+    "Hooks compiled only with -tags verif. The seeded search is the deciding step; the exhaustive sub-sweep is an add-on of the thorough tier.", "4 C15")
 
 NA = {
     "C17": "pure predicate of one packet value compared with a truth table: no reader, writer, history, fault or schedule in it; deciding it is input generation, not simulation (DESIGN.md section 4, C17-C19)",
